@@ -6,7 +6,9 @@ DD = 'openmdao/drivers/doe_driver.py'
 
 
 def set_ghost(it, env, res):
-    it.ctx.ghost['sets'] = list(it.ctx.ghost.get('sets', [])) + [(env.get('dv_name'), env.get('dv_val'))]
+    # the ACTUAL arguments of the call (not the loop variables)
+    a = it.last_assumed_args
+    it.ctx.ghost['sets'] = list(it.ctx.ghost.get('sets', [])) + [(a[0], a[1])]
     it.ctx.ghost['ran_at'] = it.ctx.ghost.get('ran_at')
 
 
